@@ -56,7 +56,7 @@ func init() {
 	harness.Register(&harness.Check{
 		ID:    "C07",
 		Level: "exploration",
-		Rule: "case = one key set (2..12 keys from a pool that sorts differently by byte, rune, length and case) x 11 path shapes (wildcard, filter, recursive descent followed by name / wildcard / filter / index / slice, also below an object nested directly in an object, multi-name with *); " +
+		Rule: "case = one key set (2..12 keys from a pool that sorts differently by byte, rune, length and case; one in six cases 13..260 keys incl. generated ones with shared prefixes) x 11 path shapes (wildcard, filter, recursive descent followed by name / wildcard / filter / index / slice, also below an object nested directly in an object, multi-name with *); " +
 			"the object is built 3 times with different insertion orders, each shape evaluated repeatedly on each build (20 / 60 repetitions) interleaved with evaluations on " +
 			"bigger and smaller maps that recycle the pooled key buffers; judged: all repetitions identical and equal to the order computed with sort.Strings / pre-order / " +
 			"written order (SPEC), and for the plain wildcard shape to the directly sorted key list; hooks: adversarial key scrambling before the library's sort, key-buffer poison; " +
@@ -73,7 +73,7 @@ func init() {
 				},
 				Run:      func(c *harness.Ctx, k int) { runC07(c, reps) },
 				Finish:   reportHooks,
-				Required: []string{"keys:2", "keys:12", "shape:wildcard", "shape:recursive-name", "shape:filter", "shape:multi-with-wildcard", "shape:recursive-index", "shape:nested-recursive-index"},
+				Required: []string{"keys:2", "keys:12", "keys:large", "shape:wildcard", "shape:recursive-name", "shape:filter", "shape:multi-with-wildcard", "shape:recursive-index", "shape:nested-recursive-index"},
 			}
 		},
 	})
@@ -86,6 +86,31 @@ func runC07(c *harness.Ctx, reps int) {
 	keys := make([]string, n)
 	for i := range keys {
 		keys[i] = orderKeyPool[perm[i]]
+	}
+	if r.Intn(6) == 0 {
+		// key sets beyond the small sizes (sorting fast paths, pooled buffers and tables end somewhere)
+		n = []int{13, 16, 17, 20, 31, 32, 33, 63, 64, 65, 66, 127, 128, 129, 257, 260}[r.Intn(16)]
+		seen := map[string]bool{}
+		keys = keys[:0]
+		for len(keys) < n {
+			var k string
+			if len(keys) < len(orderKeyPool) && r.Intn(2) == 0 {
+				k = orderKeyPool[perm[len(keys)]]
+			} else {
+				alphabet := []string{"a", "b", "A", "é", "0", "_", "z", "😀"}
+				for l := 1 + r.Intn(4); l > 0; l-- {
+					k += alphabet[r.Intn(len(alphabet))]
+				}
+				if r.Intn(4) == 0 {
+					k = "common-prefix/" + k
+				}
+			}
+			if !seen[k] {
+				seen[k] = true
+				keys = append(keys, k)
+			}
+		}
+		c.Cover("keys:large")
 	}
 	c.Cover(fmt.Sprintf("keys:%d", n))
 	sorted := append([]string{}, keys...)
